@@ -163,6 +163,8 @@ func checks() map[string]*Check {
 	app("C02", RunSpec{Scen: "w2.votes", Quick: 32, Thorough: 800})
 	app("C03", RunSpec{Scen: "w1", Params: "crash=0,bounce=1,applyin=1500,voters=3,clients=6", Quick: 24, Thorough: 600}, RunSpec{Scen: "w1", Params: "crash=0,bounce=1,applyin=1500,voters=1", Quick: 8, Thorough: 200}, RunSpec{Scen: "w2.deposed", Quick: 24, Thorough: 600}, RunSpec{Scen: "w2.bounce", Quick: 16, Thorough: 400}, RunSpec{Scen: "w2.takeover", Quick: 16, Thorough: 400})
 	app("C04", RunSpec{Scen: "w2.exacthalf", Quick: 16, Thorough: 400}, RunSpec{Scen: "w2.acklose", Quick: 24, Thorough: 600})
+	app("C05", RunSpec{Scen: "w2.selfremoveread", Params: "opcap=2000", Quick: 12, Thorough: 300})
+	app("C03", RunSpec{Scen: "w2.stalereply", Quick: 8, Thorough: 200})
 	app("C05", RunSpec{Scen: "w2.deposedread", Params: "opcap=2000", Quick: 24, Thorough: 600}, RunSpec{Scen: "w2.staleround", Params: "opcap=2000", Quick: 24, Thorough: 600},
 		RunSpec{Scen: "w2.freshread", Params: "opcap=4000,applyin=300", Quick: 16, Thorough: 400}, RunSpec{Scen: "w2.freshread", Params: "opcap=4000,applyin=300,voters=1", Quick: 8, Thorough: 200},
 		RunSpec{Scen: "w1", Params: "crash=1,reads=1,applyin=400,voters=3", Quick: 24, Thorough: 600}, RunSpec{Scen: "w1", Params: "crash=1,reads=1,voters=1", Quick: 8, Thorough: 200})
@@ -249,6 +251,7 @@ func checks() map[string]*Check {
 			{Scen: "w2.lease", Params: "et=600,hb=30,lease=100,opcap=100000", Quick: 24, Thorough: 600, Par: 8},
 			{Scen: "w2.lease", Params: "voters=5,et=600,hb=30,lease=100,opcap=100000", Quick: 16, Thorough: 400, Par: 8},
 			{Scen: "w2.deposedread", Params: "read=SR,et=600,hb=30,lease=100,opcap=2000", Quick: 8, Thorough: 200, Par: 8},
+			{Scen: "w2.selfremoveread", Params: "read=SR,et=600,hb=30,lease=100,opcap=2000", Quick: 8, Thorough: 200, Par: 8},
 			{Scen: "w2.freshread", Params: "read=SR,opcap=4000,applyin=300", Quick: 8, Thorough: 200, Par: 8},
 			{Scen: "w2.lingering", Params: "et=300,hb=20,lease=100,opcap=100000", Quick: 8, Thorough: 200, Par: 8},
 			{Scen: "w2.leasevote", Params: "et=300,hb=20,lease=100,opcap=100000", Quick: 16, Thorough: 400, Par: 8},
